@@ -1,6 +1,166 @@
-/- stub: property C13 has no model driver yet -/
-namespace ActixModel.Drv.C13
+import ActixModel.Util
+import ActixModel.Model.Negotiate
+import ActixModel.Model.Encoder
+/-
+Line-protocol driver for C13 (see `harness/src/props/c13.rs`, same grammar).
 
-def run (_line : String) : String := "unimplemented"
+  neg  ae=<hdr> sup=<letters of i b g d z>
+  resp ae=<hdr|-> st=<n> hce=<v|-> hvary=<v|-> ct=<mime|-> kind=<full|sized|stream|none>
+       body=<c|r><seed> ev=<tok,…> j=<n,…>
+  req  ce=<v|-> body=<c|r><seed> n=<len> ev=<tok,…> j=<n,…>
+
+`<hdr>`: header lines separated by `|`, blanks written as `_`.  `ev` tokens: a number = the next
+chunk with that many bytes, `p` = Pending, `e` = body error.
+-/
+namespace ActixModel.Drv.C13
+open ActixModel.Util ActixModel.Negotiate ActixModel.Encoder
+
+def unplus (s : String) : String := String.ofList (s.toList.map fun c => if c == '_' then ' ' else c)
+def plus (s : String) : String := String.ofList (s.toList.map fun c => if c == ' ' then '_' else c)
+
+def headerLines (s : String) : List String := (s.splitOn "|").map unplus
+
+def showPref : Pref → String
+  | .any => "*"
+  | .specific c => plus c.name
+
+def showItems (l : List QItem) : String :=
+  joinWith ";" (l.map fun qi => showPref qi.item ++ ":" ++ toString qi.q)
+
+def supOfLetters (s : String) : List Coding :=
+  s.toList.filterMap fun c =>
+    if c == 'i' then some .identity else if c == 'b' then some .br else if c == 'g' then some .gzip
+    else if c == 'd' then some .deflate else if c == 'z' then some .zstd else none
+
+def showOptCoding : Option Coding → String
+  | none => "none"
+  | some c => plus c.name
+
+def runNeg (ws : List String) : String :=
+  let ae := parseAE (headerLines ((kv ws "ae").getD ""))
+  let sup := supOfLetters ((kv ws "sup").getD "")
+  "items=" ++ showItems ae ++ " ranked=" ++ showItems (rankedItems ae) ++
+    " neg=" ++ showOptCoding (negotiate ae sup)
+
+/-! body bytes: same two generators as the harness -/
+
+def patByte (seed i : Nat) : UInt8 := UInt8.ofNat (97 + ((i / 13) * 7 + i % 5 + seed) % 23)
+
+def splitmixNext (s : UInt64) : UInt64 × UInt64 :=
+  let s := s + 0x9E3779B97F4A7C15
+  let z := s
+  let z := (z ^^^ (z >>> 30)) * 0xBF58476D1CE4E5B9
+  let z := (z ^^^ (z >>> 27)) * 0x94D049BB133111EB
+  (s, z ^^^ (z >>> 31))
+
+def rndBytes : Nat → UInt64 → Bytes → Bytes
+  | 0, _, acc => acc.reverse
+  | n + 1, s, acc => let (s', z) := splitmixNext s; rndBytes n s' (z.toUInt8 :: acc)
+
+def genBody (spec : String) (n : Nat) : Bytes :=
+  let seed := (spec.drop 1).toString.toNat?.getD 0
+  if spec.startsWith "r" then rndBytes n (UInt64.ofNat seed ^^^ 0x9E3779B97F4A7C15) []
+  else (List.range n).map (patByte seed)
+
+def adler (bs : Bytes) : Nat :=
+  let r := bs.foldl (fun (ab : Nat × Nat) x =>
+    let a := (ab.1 + x.toNat) % 65521
+    (a, (ab.2 + a) % 65521)) (1, 0)
+  r.2 * 65536 + r.1
+
+def showSum (bs : Bytes) : String := "n=" ++ toString bs.length ++ " sum=" ++ toString (adler bs)
+
+inductive Tok where | sz (n : Nat) | p | e
+
+def parseToks (s : String) : List Tok :=
+  (s.splitOn ",").filterMap fun t =>
+    if t == "p" then some .p else if t == "e" then some .e else t.toNat?.map .sz
+
+def totalLen : List Tok → Nat
+  | [] => 0
+  | .sz n :: r => n + totalLen r
+  | _ :: r => totalLen r
+
+/-- cut the body by the chunk tokens -/
+def mkEvs : List Tok → Bytes → List BodyEv
+  | [], _ => []
+  | .sz n :: r, bs => .chunk (bs.take n) :: mkEvs r (bs.drop n)
+  | .p :: r, bs => .pending :: mkEvs r bs
+  | .e :: r, bs => .err :: mkEvs r bs
+
+def parseNats (s : String) : List Nat := (s.splitOn ",").filterMap (·.toNat?)
+
+def optVal (ws : List String) (k : String) : Option String :=
+  match kv ws k with
+  | some "-" => none
+  | some v => some (unplus v)
+  | none => none
+
+/-- crude `Mime` parse for the generator's alphabet: `type/subtype[+suffix][; params]` -/
+def parseMime (s : String) : Option (String × String) :=
+  let l := String.ofList (s.toList.map Char.toLower)
+  match l.splitOn "/" with
+  | [ty, rest] =>
+    let sub := ((rest.splitOn ";").headD "").trimAscii.toString
+    let sub := (sub.splitOn "+").headD ""
+    if ty.isEmpty then none else some (ty, sub)
+  | _ => none
+
+def showSize : BodySize → String
+  | .none => "none" | .stream => "stream" | .sized n => toString n
+
+def showList (l : List String) : String := if l.isEmpty then "-" else joinWith "," (l.map plus)
+
+def showNats (l : List Nat) : String := if l.isEmpty then "-" else joinWith "," (l.map toString)
+
+def runResp (ws : List String) : String :=
+  let ae : Option AE := match kv ws "ae" with
+    | some "-" => none
+    | some h => some (parseAE (headerLines h))
+    | none => none
+  let st := kvNat ws "st" 200
+  let hdrs : List (String × String) :=
+    (match optVal ws "ct" with | some v => [("content-type", v)] | none => []) ++
+    (match optVal ws "hce" with | some v => [("content-encoding", v)] | none => []) ++
+    (match optVal ws "hvary" with | some v => [("vary", v)] | none => [])
+  let toks := parseToks ((kv ws "ev").getD "")
+  let bytes := genBody ((kv ws "body").getD "c0") (totalLen toks)
+  let kind := (kv ws "kind").getD "full"
+  let rb : RespBody :=
+    if kind == "none" then ⟨.none, some [], []⟩
+    else if kind == "full" then ⟨.sized bytes.length, some bytes, []⟩
+    else if kind == "sized" then ⟨.sized bytes.length, none, mkEvs toks bytes⟩
+    else ⟨.stream, none, mkEvs toks bytes⟩
+  let ct := (optVal ws "ct").bind parseMime
+  let r := compress ae ⟨st, hdrs, false⟩ ct rb
+  let joins := parseNats ((kv ws "j").getD "")
+  let s := initEnc toyCodec r.mode
+  let outs := drive toyCodec (fuelFor s r.evs joins) s r.evs joins
+  let chunks := outChunks outs
+  let fin := match outs.getLast? with
+    | some .done => "done" | some .err => "err" | _ => "hang"
+  let isEnc := match r.mode with | .encode _ => true | _ => false
+  let bodyStr :=
+    if isEnc then
+      if fin == "done" then
+        match toyDecode chunks.flatten with
+        | some d => "chunks=* " ++ showSum d
+        | none => "chunks=* n=! sum=!"
+      else "chunks=* n=- sum=-"
+    else "chunks=" ++ showNats (chunks.map List.length) ++ " " ++ showSum chunks.flatten
+  "st=" ++ toString r.head.status ++
+    " ce=" ++ showList (hGetAll r.head.headers "content-encoding") ++
+    " vary=" ++ showList (hGetAll r.head.headers "vary") ++
+    " size=" ++ showSize r.size ++ " " ++ bodyStr ++ " end=" ++ fin
+
+def runReq (_ws : List String) : String := "unimplemented"
+
+def run (line : String) : String :=
+  let ws := words line
+  match ws with
+  | "neg" :: r => runNeg r
+  | "resp" :: r => runResp r
+  | "req" :: r => runReq r
+  | _ => "bad-case"
 
 end ActixModel.Drv.C13
